@@ -547,6 +547,20 @@ def has_constructs(recs):
     return any(rc["opu"].upper() in CONSTRUCT_OPS for rc in recs.values())
 
 
+def wrap_line_ok(lines, recs, i):
+    """may line i (0-based) of the main file stand in the body of a wrapper macro?"""
+    ln, eol = lines[i]
+    rec = recs.get(i + 1)
+    up = ln.upper()
+    return (rec is not None and rec["e"]["raw"] == ln and not ln.endswith("\\") and eol != ""
+            and not (i > 0 and lines[i - 1][0].endswith("\\"))
+            and rec["opu"].upper() not in WRAP_NEVER and not rec["e"]["op"].startswith("!")
+            and "{" not in rec["e"]["op"]      # {SYM} in the mnemonic is expanded while a body is collected
+                                                # (t_expandop documents it): the wrap would move that moment
+            and not (rec["e"]["lab"] and not IDENT.match(rec["e"]["lab"]))
+            and not any(w in up for w in ("ALLARGS", "ARGCOUNT", "ATTRIBUTE", "MOMLINE", "__LABEL__", "MOMFILE")))
+
+
 def macro_regions(lines, recs, r, maxregions=3, forced=False, maxlen=1500):
     """runs of consecutive main-file lines that may be wrapped into a parameterless macro: every line was seen by
     the assembler with exactly this text, the run is balanced for the body collector and for IF / STRUCT /
@@ -557,15 +571,7 @@ def macro_regions(lines, recs, r, maxregions=3, forced=False, maxlen=1500):
     ops = []
     for i, (ln, eol) in enumerate(lines):
         rec = recs.get(i + 1)
-        up = ln.upper()
-        good = (rec is not None and rec["e"]["raw"] == ln and not ln.endswith("\\") and eol != ""
-                and not (i > 0 and lines[i - 1][0].endswith("\\"))
-                and rec["opu"].upper() not in WRAP_NEVER and not rec["e"]["op"].startswith("!")
-                and "{" not in rec["e"]["op"]      # {SYM} in the mnemonic is expanded while a body is collected
-                                                    # (t_expandop documents it): the wrap would move that moment
-                and not (rec["e"]["lab"] and not IDENT.match(rec["e"]["lab"]))
-                and not any(w in up for w in ("ALLARGS", "ARGCOUNT", "ATTRIBUTE", "MOMLINE", "__LABEL__", "MOMFILE")))
-        ok.append(good)
+        ok.append(wrap_line_ok(lines, recs, i))
         ops.append(rec["opu"].upper() if rec is not None else "")
 
     def state_after(i):
@@ -615,14 +621,43 @@ def macro_regions(lines, recs, r, maxregions=3, forced=False, maxlen=1500):
     return sorted(regions)
 
 
-def rewrite_file(data, recs, fvec, lvecs, r, do_lines=True, forms=None, gvecs=None):
+def whole_file_region(lines, recs, runops, maxlen=1200):
+    """[(0, n)] if the whole main file may be wrapped into a PLAIN macro (labels local to the wrapper's expansion),
+    else [].  Mirror of BodyCollect.tla LocalWrappable (validated by TLC: BodyCollect_Trace, WRAPLOCAL): every line
+    may stand in a macro body, the file is balanced for the collector and the paired statements, and no SECTION is
+    opened anywhere in the run (runops = statement names executed at any depth).  maxlen: like macro_regions (the
+    recursive operators of BodyCollect.tla are evaluated over the region's statement list)."""
+    n = len(lines)
+    if n == 0 or n > maxlen or (set(runops or ()) & SECT_OPENS) or not all(wrap_line_ok(lines, recs, i) for i in range(n)):
+        return []
+    lv = [0, 0, 0, 0]
+    for i in range(n):
+        op = recs[i + 1]["opu"].upper()
+        for f, (O, C) in enumerate(FAMILIES):
+            if op in O:
+                lv[f] += 1
+            elif op in C:
+                lv[f] -= 1
+        if min(lv) < 0:
+            return []
+    last = recs[n]
+    if lv != [0, 0, 0, 0] or last["rec"] or last["ifs"] or last.get("std", 0) or last.get("sed", 0) or not last["ifasm"]:
+        return []
+    return [(0, n)]
+
+
+def rewrite_file(data, recs, fvec, lvecs, r, do_lines=True, forms=None, gvecs=None, runops=None):
     """data: bytes of the main source; recs: {line number -> record of the original run}.
     Returns (items, stats); items = list of dicts {"orig": text or None (inserted line), "new": text, "eol": str,
     "n": original line number or None}.  render_items() turns them into the file."""
     lines = physical_lines(data)
     stats = {"untouched": 0, "unshaped": 0, "rewritten": 0, "toolong": 0, "colon": 0, "wrapped_lines": 0,
              "blank_added": 0, "regions": 0, "lines": len(lines)}
-    regions = macro_regions(lines, recs, r, forced=bool(fvec.get("forced"))) if fvec["wrap"] == "macro" else []
+    if fvec["wrap"] == "macrolocal":
+        regions = whole_file_region(lines, recs, runops)
+    else:
+        regions = macro_regions(lines, recs, r, forced=bool(fvec.get("forced"))) if fvec["wrap"] == "macro" else []
+    ctrl = "" if fvec["wrap"] == "macrolocal" else "\t{GLOBALSYMBOLS}"
     stats["region_ops"] = [[(recs[k + 1]["opu"].upper() if recs.get(k + 1) else "") for k in range(a, b)] for (a, b) in regions]
     starts = {a: k for k, (a, b) in enumerate(regions)}
     ends = {b: k for k, (a, b) in enumerate(regions)}
@@ -645,7 +680,7 @@ def rewrite_file(data, recs, fvec, lvecs, r, do_lines=True, forms=None, gvecs=No
             ins("\tendm")
             ins("\tvwrap%d" % ends[i])
         if i in starts:
-            ins("vwrap%d\tmacro\t{GLOBALSYMBOLS}" % starts[i])
+            ins("vwrap%d\tmacro%s" % (starts[i], ctrl))
             stats["regions"] += 1
         cont = ln.endswith("\\")
         if cont or cont_prev or not do_lines:
@@ -754,3 +789,81 @@ def render_tree(items, depth=0, pnames=None, uid=None):
             out += render_tree(it["body"], depth + 1, pnames, uid)
             out.append("\tendsection")
     return out
+
+
+# -------------------------------------------------------------------------------------------------
+# scoped programs of spec/SymScope.tla -> source text (z80 dialect).  Pure rendering: every item becomes the
+# statement(s) the specification names; what the program means is computed by TLC (SymScope.Expand).
+# -------------------------------------------------------------------------------------------------
+_SCOPE_CTRL = {"default": None, "global": "{GLOBALSYMBOLS}", "noglobal": "{NOGLOBALSYMBOLS}"}
+
+
+def _scope_ref(it):
+    nm, how = it["name"], it["how"]
+    if how == "val":
+        return ["\tdb\t%s" % nm]
+    if how == "defined":
+        return ["\tdb\tdefined(%s)" % nm]
+    if how == "symtype":
+        return ["\tdb\tsymtype(%s)" % nm]
+    if how in ("ifdef", "ifused"):
+        return ["\t%s\t%s" % (how, nm), "\tdb\t1", "\telseif", "\tdb\t0", "\tendif"]
+    raise ValueError("unknown reference kind %r" % how)
+
+
+def render_scope_tree(items, uid=None):
+    """list of source lines for the items of a SymScope program (LEAF / DEF / REF / constructs with a symbol mode)"""
+    uid = uid if uid is not None else [0]
+    out = []
+    for it in items:
+        k = it["k"]
+        if k == "LEAF":
+            out.append("\tdb\t%d" % it["n"])
+            continue
+        if k == "DEF":
+            out.append("%s:" % it["name"])
+            continue
+        if k == "REF":
+            out += _scope_ref(it)
+            continue
+        uid[0] += 1
+        u = uid[0]
+        ctrl = _SCOPE_CTRL[it["g"]]
+        tail = ("," + ctrl) if ctrl else ""
+        n = it["n"]
+        if k == "REPT":
+            out.append("\trept\t%d%s" % (n, tail))
+        elif k == "IRP":
+            out.append("\tirp\tQS%dA%s,%s" % (u, tail, ",".join(str(j) for j in range(1, n + 1))))
+        elif k == "IRPN":
+            out.append("\tirpn\t1,QS%dA%s,%s" % (u, tail, ",".join(str(j) for j in range(1, n + 1))))
+        elif k == "IRPC":
+            out.append("\tirpc\tQS%dA%s,%s" % (u, tail, "".join(str(j) for j in range(1, n + 1))))
+        elif k == "WHILE":
+            out.append("qscnt%d\tset\t0" % u)
+            out.append("\twhile\tqscnt%d<%d%s" % (u, n, tail))
+        elif k == "MACRO":
+            if n != 1:
+                raise ValueError("a macro of a scoped program is called once")
+            out.append("qsmac%d\tmacro%s" % (u, ("\t" + ctrl) if ctrl else ""))
+        else:
+            raise ValueError("unknown item kind %r" % k)
+        out += render_scope_tree(it["body"], uid)
+        if k == "WHILE":
+            out.append("qscnt%d\tset\tqscnt%d+1" % (u, u))
+        out.append("\tendm")
+        if k == "MACRO":
+            out.append("\tqsmac%d" % u)
+    return out
+
+
+def scope_sources(tree, form):
+    """the program under one wrapper of SymScope.Wrappers: {file name: text}"""
+    body = "\n".join(render_scope_tree(tree)) + "\n"
+    head = "\tcpu\tz80\n\torg\t0\n"
+    if form == "plain":
+        return {"a.asm": head + body}
+    if form == "include":
+        return {"a.asm": head + "\tinclude\t\"b.inc\"\n", "b.inc": body}
+    ctrl = {"macro": None, "macro-global": "{GLOBALSYMBOLS}", "macro-noglobal": "{NOGLOBALSYMBOLS}"}[form]
+    return {"a.asm": head + "vwrap\tmacro%s\n" % (("\t" + ctrl) if ctrl else "") + body + "\tendm\n\tvwrap\n"}
